@@ -216,6 +216,12 @@ pub fn run(ctx: &Ctx, prop: &str) -> Outcome {
             }
         }
         if !r.audit_failures.is_empty() {
+            let lockish: Vec<&String> = r.audit_failures.iter().filter(|f| f.contains("lock") || f.contains("waiter")).collect();
+            if prop == "c11" && lockish.is_empty() {
+                // a malformed table at the end of a schedule is C05's / C01's business
+                out.inconclusive.push(format!("schedule {} ended with a malformed table (belongs to C05, not a liveness verdict): {}", i - 1, r.audit_failures.join("; ")));
+                break;
+            }
             out.violate(
                 if prop == "c11" { "c11/serial/lock-state".to_string() } else { format!("{prop}/serial/structure") },
                 format!("at the end of the schedule: {} [schedule {} of shard {}, {}]", r.audit_failures.join("; "), i - 1, ctx.shard, p.to_json()),
@@ -232,10 +238,14 @@ pub fn run(ctx: &Ctx, prop: &str) -> Outcome {
         if out.samples.is_empty() && r.res.lock_waits > 0 {
             out.sample(Json::obj().with("program", p.to_json()).with("steps", Json::u(r.res.steps)).with("token_switches", Json::u(r.res.switches)).with("decisions", Json::s(r.res.decisions.iter().take(120).map(|d| char::from(b'0' + *d)).collect::<String>())));
         }
+        if hr.violation.is_some() && prop == "c11" {
+            out.inconclusive.push(format!("schedule {} produced a non-linearizable history (belongs to C01, not a liveness verdict) [{}]", i - 1, p.to_json()));
+            break;
+        }
         if let Some((k, h)) = hr.violation {
             let hs = h.iter().map(|e| format!("t{}[{}..{}]{:?}", e.thread, e.call, e.ret, e.op)).collect::<Vec<_>>().join(" | ");
             out.violate(
-                format!("{}/serial/not-linearizable", if prop == "c11" { "c01" } else { prop }),
+                format!("{prop}/serial/not-linearizable"),
                 format!("no sequential order explains the calls on key {k} (initial {:?}): {hs} [schedule {} of shard {}, {}]", init(k), i - 1, ctx.shard, p.to_json()),
                 replay(&r.res),
             );
